@@ -153,13 +153,16 @@ pub const R_BBIG: usize = 16;
 pub const R_BFROZEN_OFF: usize = 17;
 /// capacity >= 1024 so that the original-capacity classes are active: BytesMut::with_capacity(1024) + put n
 pub const R_MKILO: usize = 18;
-pub const N_ROOTS: usize = 19;
+/// shared form, sole owner, front offset, and grown in place after the promotion (the control block's Vec still has the
+/// promotion-time length): with_capacity(n+6), put 1+n, split_to(1) dropped, put 2 more
+pub const R_MSHARED_GROWN: usize = 19;
+pub const N_ROOTS: usize = 20;
 pub fn root_name(r: usize) -> &'static str {
     [
         "Bytes::new", "Bytes::from_static", "Bytes::from(Vec len==cap)", "Bytes::from(Vec spare)", "Bytes::from(Box<[u8]>)", "Bytes::from_owner",
         "Bytes::copy_from_slice", "Bytes::from(Vec empty, cap 3)", "BytesMut::new", "BytesMut::with_capacity+put", "BytesMut::from(&[u8])", "BytesMut::zeroed",
         "BytesMut::from_iter", "Bytes::from_owner(as_ref panics)", "BytesMut shared+unique+offset", "BytesMut::with_capacity(128)+put", "Bytes::from(Vec cap 128)",
-        "Bytes frozen from shared+unique+offset BytesMut", "BytesMut::with_capacity(1024)+put",
+        "Bytes frozen from shared+unique+offset BytesMut", "BytesMut::with_capacity(1024)+put", "BytesMut shared+unique+offset, grown after promotion",
     ][r]
 }
 
@@ -395,6 +398,18 @@ impl World {
             },
             _ => false,
         };
+        // "uniquely held" by the history, whatever is_unique() says: a non-empty view of a crate-allocated block
+        // (not static, not owner-backed) and no other live handle was ever derived from or merged with it
+        let model_unique: bool = match (op.k, &self.slots.get(s).and_then(|x| x.as_ref())) {
+            (K::BTryIntoMut, Some(sl)) | (K::BIntoMut, Some(sl)) => match &sl.h {
+                H::B(b) => {
+                    let related = (0..MAXH).any(|j| j != s && self.slots[j].as_ref().map_or(false, |o| o.fam & sl.fam != 0));
+                    !b.is_empty() && !related && oracle::find_live(b.as_ptr() as usize).map_or(false, |bi| !self.is_owner_block(bi))
+                }
+                _ => false,
+            },
+            _ => false,
+        };
         // `expect_panic`: does the documented contract say this call panics?
         let mut expect_panic = false;
         let mut panicked = false;
@@ -450,6 +465,15 @@ impl World {
                         R_MBIG => {
                             let mut m = BytesMut::with_capacity(128);
                             m.put_slice(&d);
+                            H::M(m)
+                        }
+                        R_MSHARED_GROWN => {
+                            let mut m = BytesMut::with_capacity(n + 6);
+                            m.put_u8(0x5a);
+                            m.put_slice(&d[..n.saturating_sub(2)]);
+                            let head = m.split_to(1);
+                            drop(head);
+                            m.put_slice(&d[n.saturating_sub(2)..]);
                             H::M(m)
                         }
                         R_MKILO => {
@@ -664,6 +688,10 @@ impl World {
                         if self.check {
                             if try_ && !pre_unique {
                                 self.vio("C08", "try_into_mut-ok-nonunique", "try_into_mut returned Ok although is_unique() was false just before".into());
+                            }
+                            if model_unique && !pre_unique && !nm.is_empty() && nm.as_ptr() as usize != pre[s].ptr {
+                                // the buffer *is* uniquely held (no other handle exists), so the conversion must not copy
+                                self.vio("C07", "into_mut-copied-sole-handle", format!("Bytes->BytesMut of the only handle on its buffer copied the bytes ({:#x} -> {:#x}): is_unique() was false although no other handle exists", pre[s].ptr, nm.as_ptr() as usize));
                             }
                             if pre_unique {
                                 // zero-copy conversion of a uniquely held buffer
@@ -1172,6 +1200,8 @@ impl World {
                     }
                 }
                 let before = self.model(s).clone();
+                // a lower bound that cannot be represented: reserve(lower) must panic before anything is appended
+                let hint_impossible = !boom && before.len().checked_add(hint).map_or(true, |t| t > ISIZE_MAX);
                 let r = self.call(|w| w.m(s).extend(It { d: &d, i: 0, hint, boom }));
                 let _ = n;
                 match r {
@@ -1183,7 +1213,7 @@ impl World {
                     }
                     Err(()) => {
                         panicked = true;
-                        expect_panic = boom;
+                        expect_panic = boom || hint_impossible;
                         if boom {
                             // the handle must still be a consistent value: old contents followed by a prefix of what was yielded
                             let mut want = before.clone();
@@ -1459,6 +1489,9 @@ impl World {
                             }
                             None => "no allocation the crate owns".into(),
                         };
+                        if what.starts_with("a FREED") {
+                            v("C03", "freed-while-handle-alive", format!("slot {}: the storage behind this live non-empty handle was already released ({})", i, what));
+                        }
                         let prop = if sl.h.is_b() { "C02" } else { "C04" };
                         v(prop, "containment", format!("slot {} ({}): region [{:#x}, +{}) is not inside one live allocation (it points into {})", i, if sl.h.is_b() { "Bytes, visible bytes" } else { "BytesMut, capacity" }, p, extent, what));
                         if prop == "C04" {
